@@ -62,7 +62,9 @@ Record cfg := mk_cfg {
   c_hrr : bool;      (* 1.3 server under test answers the first ClientHello with HRR *)
   c_resume : bool;   (* <=1.2 abbreviated handshake *)
   c_hb : bool;       (* heartbeat negotiated, peer allowed to send *)
-  c_ccert : bool     (* 1.3 client under test offered compress_certificate *)
+  c_ccert : bool;    (* 1.3 client under test offered compress_certificate *)
+  c_early : bool     (* 1.3 server under test: the first ClientHello offered early_data with a
+                        usable PSK (RecordLayer.early_data_ok is switched on) *)
 }.
 
 Definition kx_has_cert (k : kx) : bool :=
@@ -95,7 +97,8 @@ Inductive pos :=
 Inductive bufk := BEmpty | BUnknown | BPartial.
 (* buf: see above; bep: protection of the record that last put bytes into the buffer;
    gotc: a non-empty client certificate was received *)
-Record st := mk_st { pc : pos; buf : bufk; gotc : bool; bep : epoch }.
+(* ed: RecordLayer.early_data_ok -- undecryptable records are silently skipped *)
+Record st := mk_st { pc : pos; buf : bufk; gotc : bool; bep : epoch; ed : bool }.
 Definition pend (s : st) : bool := match buf s with BEmpty => false | _ => true end.
 
 Definition init_pc (c : cfg) : pos :=
@@ -103,7 +106,7 @@ Definition init_pc (c : cfg) : pos :=
   | Client => if c_v13 c then C13_SH0 else C_SH
   | Server => S_CH
   end.
-Definition init (c : cfg) : st := mk_st (init_pc c) BEmpty false E0.
+Definition init (c : cfg) : st := mk_st (init_pc c) BEmpty false E0 false.
 
 Definition is_done (s : st) : bool := match pc s with P_Done => true | _ => false end.
 Definition is_abort (s : st) : bool := match pc s with P_Abort _ => true | _ => false end.
@@ -222,6 +225,17 @@ Definition modelled_defrag : list (string * string) := [
   ("is_empty.users", "_clientGetServerHello:1 ; _serverGetClientHello:1 ; _getFinished:1 ; _getMsg:1")
 ].
 
+(* my reading of every assignment to early_data_ok: switched on by a first ClientHello that
+   offers early_data (TLS 1.3 in its supported_versions), restored around a TLS 1.3 CCS by
+   _getNextRecord, switched off UNCONDITIONALLY after every record recvRecord processed
+   (step_t: ed'/ed'').  Compared by Props.C06.early_data_as_modelled. *)
+Definition modelled_early_data : list (string * Z * string * string) := [
+  ("_serverGetClientHello", 0, "ver_ext and (3, 4) in ver_ext.versions && early_data", "True");
+  ("_getNextRecord", 0, "header.type == ContentType.application_data or (self.version > (3, 3) and header.type == ContentType.change_cipher_spec) && header.type == ContentType.change_cipher_spec", "early_data_ok");
+  ("RecordLayer.recvRecord", 0, "", "False")
+].
+
+
 Definition gate := (list Z * list Z)%type.   (* content types, handshake types *)
 Definition no_gate : gate := ([], []).       (* a missing row admits nothing *)
 
@@ -281,6 +295,7 @@ Definition zin (x : Z) (l : list Z) : bool := existsb (Z.eqb x) l.
 Inductive deliv := DHs (t : hst) | DCcs (ok : bool) | DAlert (k : alertk) | DApp.
 Inductive gres :=
 | GSkip (warn : option Z)   (* loop again; warn = description of a warning alert sent *)
+| GSkipU                    (* record layer: undecryptable record dropped (early-data window) *)
 | GAbort (r : reason)
 | GDeliver (d : deliv).
 
@@ -312,7 +327,7 @@ Definition getmsg_hs (x : gctx) (g : gate) (t : hst) (aligned : bool) : gres :=
   else GDeliver (DHs t).
 
 (* one incoming item; [pend] = the handshake buffer is non-empty before it arrives *)
-Definition getmsg (x : gctx) (g : gate) (pend : bool) (s : sym) : gres :=
+Definition getmsg (x : gctx) (g : gate) (pend : bool) (edw : bool) (s : sym) : gres :=
   let '(ep, p) := s in
   let '(cts, hts) := g in
   match p with
@@ -325,17 +340,21 @@ Definition getmsg (x : gctx) (g : gate) (pend : bool) (s : sym) : gres :=
     (* RecordLayer.recvRecord: a TLS 1.3 ChangeCipherSpec record is passed through unprotected;
        everything else must open under the current read state *)
     let passthrough := (x_v13 x && epoch_eqb ep E0 && match p with PCcs _ => true | _ => false end)%bool in
+    (* recvRecord, no read keys yet and early_data_ok: every record of outer type application_data
+       is taken for early data and dropped, whatever it contains *)
+    if (edw && epoch_eqb (x_rd x) E0 && match p with PApp _ => true | _ => false end)%bool then GSkipU else
     if negb (epoch_eqb ep (x_rd x) || passthrough)
-    then GAbort (match x_rd x with
-                 | E0 => R_any                 (* ciphertext read as if it were plaintext *)
-                 | _ => if (x_v13 x && epoch_eqb ep E0)%bool
-                        then match p with
-                             | PAlert _ => R_any        (* accepted as an alert before the first
-                                                           protected record, refused afterwards *)
-                             | _ => R_badmac            (* 1.3: unprotected record under keys *)
-                             end
-                        else R_badmac
-                 end)
+    then
+      (* TLS 1.3 plaintext alert under handshake keys: taken as an alert before the first
+         protected record (hence also inside the early-data window), refused afterwards *)
+      if (x_v13 x && epoch_eqb ep E0 && negb (epoch_eqb (x_rd x) E0)
+          && match p with PAlert _ => true | _ => false end)%bool then GAbort R_any
+      (* RecordLayer.recvRecord: while early_data_ok a record that does not open is dropped *)
+      else if edw then GSkipU
+      else GAbort (match x_rd x with
+                   | E0 => R_any               (* ciphertext read as if it were plaintext *)
+                   | _ => R_badmac
+                   end)
     else match p with
     | PFrag => GSkip None
     | PH t a => getmsg_hs x g t a
@@ -528,18 +547,31 @@ Definition step_t (t : gtab) (c : cfg) (s : st) (e : sym) : st * option Z :=
   | P_Abort _ => (s, None)
   | p =>
       if negb (wf_event s e)
-      then (mk_st (P_Abort R_any) (buf s) (gotc s) (bep s), None)
+      then (mk_st (P_Abort R_any) (buf s) (gotc s) (bep s) (ed s), None)
       else
-      let r := getmsg (ctx_at c p) (tab_get t p) (pend s) e in
+      let r := getmsg (ctx_at c p) (tab_get t p) (pend s) (ed s) e in
       let buf' := buf_after (buf s) (snd e) in
       let bep' := if is_hs_record (snd e) then fst e else bep s in
+      (* early_data_ok after the event: any record that was processed switches it off, except a
+         TLS 1.3 ChangeCipherSpec (_getNextRecord restores the flag); buffered bytes involve no
+         record *)
+      let ed' := if is_buf (snd e) then ed s
+                 else if (v13_at c p && match snd e with PCcs _ => true | _ => false end)%bool then ed s
+                 else false in
       match r with
       | GSkip w =>
-          (mk_st (match p with P_Done => P_Post | _ => p end) buf' (gotc s) bep', w)
-      | GAbort rs => (mk_st (P_Abort rs) (buf s) (gotc s) (bep s), None)
+          (mk_st (match p with P_Done => P_Post | _ => p end) buf' (gotc s) bep' ed', w)
+      | GSkipU => (mk_st (match p with P_Done => P_Post | _ => p end) (buf s) (gotc s) (bep s) (ed s), None)
+      | GAbort rs => (mk_st (P_Abort rs) (buf s) (gotc s) (bep s) (ed s), None)
       | GDeliver d =>
           let '(p', gc') := flow c p (gotc s) (match buf' with BEmpty => false | _ => true end) d in
-          (mk_st p' buf' gc' bep', None)
+          (* _serverGetClientHello switches the window on while it processes a first
+             ClientHello that offers early_data with a PSK *)
+          let ed'' := match p, d with
+                      | S_CH, DHs CH => (c_v13 c && c_early c)%bool
+                      | _, _ => ed'
+                      end in
+          (mk_st p' buf' gc' bep' ed'', None)
       end
   end.
 
@@ -564,7 +596,8 @@ Definition all_pos : list pos :=
   ++ map P_Abort all_reason.
 Definition all_st : list st :=
   flat_map (fun p => flat_map (fun e => flat_map (fun b =>
-    [mk_st p b false e; mk_st p b true e]) [BEmpty; BUnknown; BPartial])
+    [mk_st p b false e false; mk_st p b true e false; mk_st p b false e true; mk_st p b true e true])
+    [BEmpty; BUnknown; BPartial])
     all_epoch) all_pos.
 
 Definition gate_tab (G : list gate_row) (c : cfg) : gtab := map (fun p => (p, gate_at G c p)) all_pos.
@@ -578,10 +611,11 @@ Definition completes (G : list gate_row) (c : cfg) (w : list sym) : bool := is_d
 Definition bools : list bool := [false; true].
 
 (* the configurations the theorems quantify over: full products per role and version class *)
-Definition cl12 (k : kx) (tk rs hb : bool) : cfg := mk_cfg Client false false k false tk false false rs hb false.
-Definition sv12 (k : kx) (s3 rq np rs hb : bool) : cfg := mk_cfg Server false s3 k rq false np false rs hb false.
-Definition cl13 (k : kx) (cc hb : bool) : cfg := mk_cfg Client true false k false false false false false hb cc.
-Definition sv13 (k : kx) (rq hr hb : bool) : cfg := mk_cfg Server true false k rq false false hr false hb false.
+Definition cl12 (k : kx) (tk rs hb : bool) : cfg := mk_cfg Client false false k false tk false false rs hb false false.
+Definition sv12 (k : kx) (s3 rq np rs hb : bool) : cfg := mk_cfg Server false s3 k rq false np false rs hb false false.
+Definition cl13 (k : kx) (cc hb : bool) : cfg := mk_cfg Client true false k false false false false false hb cc false.
+Definition sv13e (k : kx) (rq hr hb : bool) : cfg := mk_cfg Server true false k rq false false hr false hb false true.
+Definition sv13 (k : kx) (rq hr hb : bool) : cfg := mk_cfg Server true false k rq false false hr false hb false false.
 
 Definition kx12 : list kx := [KRsa; KDhe; KEcdhe; KSrp; KSrpCert; KAnon].
 Definition cfgs_client12 : list cfg :=
@@ -594,5 +628,8 @@ Definition cfgs_client13 : list cfg :=
   flat_map (fun k => flat_map (fun cc => flat_map (fun hb => [cl13 k cc hb]) bools) bools) [KCert13; KPsk13].
 Definition cfgs_server13 : list cfg :=
   flat_map (fun k => flat_map (fun rq => flat_map (fun hr => flat_map (fun hb =>
-    [sv13 k rq hr hb]) bools) bools) bools) [KCert13; KPsk13].
+    [sv13 k rq hr hb]) bools) bools) bools) [KCert13; KPsk13]
+  (* early data can only be offered together with a PSK *)
+  ++ flat_map (fun rq => flat_map (fun hr => flat_map (fun hb => [sv13e KPsk13 rq hr hb; sv13e KCert13 rq hr hb])
+       bools) bools) bools.
 Definition all_cfgs : list cfg := cfgs_client12 ++ cfgs_server12 ++ cfgs_client13 ++ cfgs_server13.
